@@ -93,7 +93,8 @@ def split_name(q):
 # ----------------------------------------------------------------------------------
 ARCHETYPES = ['single_w2', 'joint_interest_dividends', 'itemizer', 'parent_ctc', 'hsa', 'ira_8606',
               'high_earner', 'nc_resident', 'retiree_1099r', 'minimal', 's1_additional_income', 's1_adjustments',
-              's3_credits', 'qbi_dividends', 'foreign_tax', 'nc_itemizer', 'joint_hsa_spouse']
+              's3_credits', 'qbi_dividends', 'foreign_tax', 'nc_itemizer', 'joint_hsa_spouse', 'low_income_investor']
+STD_SINGLE = {2021: 12550.0, 2022: 12950.0, 2023: 13850.0}
 
 FIRST = ['Pat', 'Alex', 'Sam', 'Jo', 'Robin']
 LAST = ['Doe', 'Smith', 'Nguyen', 'Garcia', 'Lee']
@@ -260,6 +261,20 @@ def make_persona(year, seed, archetype=None):
             over['nc_d-400_ss.interest_income_not_nc'] = str(rng.pick([0, 75]))
         over['1040.number_1098'] = '1'
         over['1098:0.box_1'] = str(rng.pick([4000, 9000.5]))
+    elif arch == 'low_income_investor':
+        # taxable income of a few hundred to a few thousand dollars (the narrow rows at the top of the tax table); enough
+        # investment income that the earned income credit is out of the question (it is not implemented)
+        wages = 1500
+        t = 105 + 5 * rng.randrange(570) + rng.pick([0, 0, 0.5])
+        divs = rng.pick([0, 0, 300, 450.5])
+        over['1040.number_1099-int'] = '1'
+        over['1099-int:0.payer'] = 'Savings Bank'
+        over['1099-int:0.box_1'] = str(round(STD_SINGLE.get(year, 13850.0) + t - wages - divs, 2))
+        if divs:
+            over['1040.number_1099-div'] = '1'
+            over['1099-div:0.payer'] = 'Index Fund'
+            over['1099-div:0.box_1a'] = str(divs)
+            over['1099-div:0.box_1b'] = str(rng.pick([divs, 100]))
     elif arch == 'retiree_1099r':
         nr = rng.pick([1, 2, 2, 3])
         over['1040.number_1099-r'] = str(nr)
@@ -427,6 +442,8 @@ def execute(pdict, file_names=(), sched=(None, 0), prompt=True, refuse_at=None, 
     run.supplied = sorted(set(file_names) | set(m.answered))
     run.config_items = simrun.config_items(store.config)
     run.input_texts = {f'{sec}.{k}': v for (sec, k), v in run.config_items.items()}
+    # what the user typed at a prompt is what the user declared, whatever the store made of it
+    run.input_texts.update({n: t for n, t in m.answered.items() if isinstance(t, str)})
     run.store = store
     return run
 
@@ -608,7 +625,63 @@ class R1Shipped(object):
         return res
 
 
+# Module- and class-level containers of the shipped form modules as they were when the modules were imported.  The
+# re-derivation starts from that state: whatever a form module remembers from one call to the next (a look-up cache, a
+# memo) is history, and a value that depends on it is not a function of the return's inputs.
+def _form_module_state():
+    import sys as _sys
+    import types as _types
+    snap = []
+    seen = set()
+
+    def take(v):
+        if isinstance(v, (dict, list, set)) and id(v) not in seen:
+            seen.add(id(v))
+            snap.append((v, type(v)(v)))
+
+    for name in sorted(_sys.modules):
+        if not name.startswith('habutax.forms.ty'):
+            continue
+        mod = _sys.modules[name]
+        if not isinstance(mod, _types.ModuleType):
+            continue
+        for k, v in list(vars(mod).items()):
+            if k.startswith('__'):
+                continue
+            take(v)
+            if isinstance(v, type) and getattr(v, '__module__', None) == name:
+                for k2, v2 in list(vars(v).items()):
+                    if not k2.startswith('__'):
+                        take(v2)
+    return snap
+
+
+_FORM_STATE = _form_module_state()
+
+
+def reset_form_module_state():
+    """-> number of containers that had changed since import"""
+    import sys as _sys
+    n = 0
+    for obj, saved in _FORM_STATE:
+        if obj != saved:
+            n += 1
+            if isinstance(obj, list):
+                obj[:] = saved
+            else:
+                obj.clear()
+                obj.update(saved)
+    for name in sorted(_sys.modules):
+        if name.startswith('habutax.forms.ty'):
+            for v in list(vars(_sys.modules[name]).values()):
+                cc = getattr(v, 'cache_clear', None)
+                if callable(cc) and not isinstance(v, type):
+                    cc()
+    return n
+
+
 def model_for(pdict, run):
+    reset_form_module_state()
     m = R1Shipped(pdict['year'], run.input_texts, run.requested)
     r = m.run()
     r.model = m
